@@ -306,28 +306,81 @@ func runC14(c *Ctx) {
 		c.Fail("UNION-DUPLICATES", "getObjectInfoAndDelegateIndex", token.NoPos, "not found")
 	}
 	if wk := p.Func("private/pkg/storage", "multiReadBucket.Walk"); wk != nil {
+		// decided on SSA over Walk, its closures and helpers: with L the comma-ok lookup of the walked path in the
+		// seen map, the caller's callback runs only on L's absent edge, and on L's present edge the walk returns the
+		// multiple-locations error unless the overlay flag is set
 		okW := false
-		deepInspect(p, wk, 2, func(n ast.Node, _ *types.Info) bool {
-			ifs, ok := n.(*ast.IfStmt)
-			if !ok || ifs.Init == nil {
-				return true
-			}
-			// if existing, ok := seen[path]; ok { if overlay {return nil}; return NewErrExistsMultipleLocations }
-			hasErr, hasOverlay := false, false
-			ast.Inspect(ifs.Body, func(m ast.Node) bool {
-				if r, ok := m.(*ast.ReturnStmt); ok && len(r.Results) == 1 && strings.Contains(exprString(r.Results[0]), "NewErrExistsMultipleLocations") {
-					hasErr = true
+		if wsf := p.SSAFunc(wk.Obj); wsf != nil {
+			cbOnAbsent, errOnPresent := false, false
+			lookupEdge := func(b *ssa.BasicBlock, present bool) bool {
+				for _, ge := range guardingEdges(b) {
+					cv, pos := condPolarity(ge.If.Cond)
+					ex, ok := cv.(*ssa.Extract)
+					if !ok || ex.Index != 1 {
+						continue
+					}
+					lk, ok := ex.Tuple.(*ssa.Lookup)
+					if !ok || !lk.CommaOk {
+						continue
+					}
+					if (ge.Branch == pos) == present {
+						return true
+					}
 				}
-				if in, ok := m.(*ast.IfStmt); ok && strings.HasSuffix(exprString(in.Cond), ".overlay") {
-					hasOverlay = true
-				}
-				return true
-			})
-			if hasErr && hasOverlay {
-				okW = true
+				return false
 			}
-			return true
-		})
+			overlayFalse := func(b *ssa.BasicBlock) bool {
+				for _, ge := range guardingEdges(b) {
+					cv, pos := condPolarity(ge.If.Cond)
+					if u, ok := cv.(*ssa.UnOp); ok && u.Op == token.MUL {
+						if fa, ok := u.X.(*ssa.FieldAddr); ok {
+							if st, ok := fa.X.Type().Underlying().(*types.Pointer).Elem().Underlying().(*types.Struct); ok && st.Field(fa.Field).Name() == "overlay" && ge.Branch != pos {
+								return true
+							}
+						}
+					}
+				}
+				return false
+			}
+			for _, f := range reachSSA(wsf, 2) {
+				for _, call := range callsIn(f) {
+					// the caller's callback: a dynamic call of a func value taking the ObjectInfo
+					if !call.Call.IsInvoke() && call.Call.StaticCallee() == nil {
+						if _, isBuiltin := call.Call.Value.(*ssa.Builtin); !isBuiltin && lookupEdge(call.Instr.Block(), false) {
+							cbOnAbsent = true
+						}
+					}
+					if fn := staticCalleeObj(call.Call); fn != nil && fn.Name() == "NewErrExistsMultipleLocations" {
+						if lookupEdge(call.Instr.Block(), true) && overlayFalse(call.Instr.Block()) {
+							errOnPresent = true
+						}
+					}
+				}
+			}
+			// and on the present edge nothing but the overlay flag lets the walk go on silently
+			overlayTrue := func(b *ssa.BasicBlock) bool {
+				for _, ge := range guardingEdges(b) {
+					cv, pos := condPolarity(ge.If.Cond)
+					if u, ok := cv.(*ssa.UnOp); ok && u.Op == token.MUL {
+						if fa, ok := u.X.(*ssa.FieldAddr); ok {
+							if st, ok := fa.X.Type().Underlying().(*types.Pointer).Elem().Underlying().(*types.Struct); ok && st.Field(fa.Field).Name() == "overlay" && ge.Branch == pos {
+								return true
+							}
+						}
+					}
+				}
+				return false
+			}
+			silentOnlyOverlay := true
+			for _, f := range reachSSA(wsf, 2) {
+				for _, r := range returnsOf(f) {
+					if len(r.Results) == 1 && isNilConst(r.Results[0]) && lookupEdge(r.Block(), true) && !overlayTrue(r.Block()) {
+						silentOnlyOverlay = false
+					}
+				}
+			}
+			okW = cbOnAbsent && errOnPresent && silentOnlyOverlay
+		}
 		c.Ob("UNION-DUPLICATES", "multiReadBucket.Walk/seen-twice", wk.Decl.Pos(), okW, true, "a path walked from a second member is an error unless overlay, where it is skipped: %v", okW)
 	}
 
